@@ -167,6 +167,9 @@ func (e *SpecEnv) evalSum(n *SQuant) Value {
 			continue
 		}
 		seenO[sym] = true
+		if strings.Contains(body.S, "("+sym+" ") {
+			continue // declared by a binder inside the summand itself: not a free variable
+		}
 		srt, ok := u.ctx.qvars[sym]
 		if !ok {
 			e.fail("sum: the summand mentions the bound variable %s of an enclosing binder whose sort is unknown", sym)
@@ -214,13 +217,35 @@ func (e *SpecEnv) evalSum(n *SQuant) Value {
 	var t Term
 	if isRange {
 		t = app(fn.ssym, rs, append([]Term{lo, hi}, outerTerms...)...)
-		if u.ctx.inQuant == 0 && !ss.seen[t.S] {
+		if !ss.seen[t.S] {
 			ss.seen[t.S] = true
 			z := zeroOf(rs)
 			hi1 := Arith("-", hi, TOne)
 			prev := app(fn.ssym, rs, append([]Term{lo, hi1}, outerTerms...)...)
 			fAt := app(fn.fsym, rs, append([]Term{hi1}, outerTerms...)...)
-			u.ctx.AssertAlways(And(Implies(Cmp("<=", hi, lo), Eq(t, z)), Implies(Cmp(">", hi, lo), Eq(t, Arith("+", prev, fAt)))), "sum-range-unfold")
+			inst := And(Implies(Cmp("<=", hi, lo), Eq(t, z)), Implies(Cmp(">", hi, lo), Eq(t, Arith("+", prev, fAt))))
+			if u.ctx.inQuant == 0 {
+				u.ctx.AssertAlways(inst, "sum-range-unfold")
+			} else {
+				// under an enclosing binder: the same unfolding, universally closed over the bound variables it mentions
+				var decls []string
+				seenV := map[string]bool{}
+				okAll := true
+				for _, sym := range qvarRe.FindAllString(inst.S, -1) {
+					if seenV[sym] {
+						continue
+					}
+					seenV[sym] = true
+					if srt, ok := u.ctx.qvars[sym]; ok {
+						decls = append(decls, fmt.Sprintf("(%s %s)", sym, srt))
+					} else {
+						okAll = false
+					}
+				}
+				if okAll && len(decls) > 0 {
+					u.ctx.AssertAlways(Term{fmt.Sprintf("(forall (%s) (! %s :pattern (%s)))", strings.Join(decls, " "), inst.S, t.S), SBool}, "sum-range-unfold (closed over enclosing binders)")
+				}
+			}
 		}
 	} else {
 		t = app(fn.ssym, rs, append([]Term{setT}, outerTerms...)...)
